@@ -79,6 +79,9 @@ let do_item s it =
   | L [A "dstart"; t; a] ->
     let t = tid_of t in let s = advance s t in
     let (s', g) = apply s (LStep t) in expect g [GDStart (t, bool_of a)]; s'
+  | L [A "mread"; t; sk] ->
+    let t = tid_of t in let s = advance s t in
+    let (s', g) = apply s (LStep t) in expect g [GMarkerRead (t, bool_of sk)]; s'
   | L [A "putm"; t] -> let t = tid_of t in let s = advance s t in let (s', g) = apply s (LStep t) in expect g [GPutM t]; s'
   | L [A "echeck"; e; k] ->
     let e = nat_of e in
